@@ -208,6 +208,29 @@ def handle (req : Json) : Except String Json := do
               ("feedback", ofList fbToJson (corralFeedback c.importance bacts bprobs a r p))]
       | _ => pure []
     pure (obj ([("out", outToJson o), ("state", corralToJson c')] ++ extra))
+  | "accepts" =>
+    -- phase 5: does a depth-2 tower accept the feedback (a, r, p)?  (`acceptsB`: the decidable recursive predicate `corral_nested_valid` needs)
+    let dummy : Leaf := { L := { kind := .random, rng := 0 }, val := fun _ _ => 0 }
+    let parseInner (j : Json) : Except String (CNode Leaf) := do
+      let mis ← (← arr (fieldD j "mis" (Json.arr #[]))).mapM ratPair
+      let c ← parseCorral (← field j "state")
+      pure { mis := mis, c := c, lastActs := ← natList (← field j "lastActs"), lastProbs := ← ratList (← field j "lastProbs"),
+             bases := List.replicate c.ps.length dummy }
+    let nodej ← field req "node"
+    let bases ← (← arr (← field nodej "bases")).mapM (fun (b : Json) => do
+      match b.getObjVal? "state" with
+      | .ok _ => pure ((Sum.inr (← parseInner b)) : (tower flDouble 1).σ)
+      | .error _ => pure ((Sum.inl dummy) : (tower flDouble 1).σ))
+    let top : CNode (tower flDouble 1).σ :=
+      { mis := ← (← arr (fieldD nodej "mis" (Json.arr #[]))).mapM ratPair, c := ← parseCorral (← field nodej "state"),
+        lastActs := ← natList (← field nodej "lastActs"), lastProbs := ← ratList (← field nodej "lastProbs"), bases := bases }
+    let a ← nat (← field req "a")
+    let r ← ratOfJson (← field req "r")
+    let p ← ratOfJson (← field req "p")
+    let learns := match (tower flDouble 2).learn (Sum.inr top) a r p with
+      | .error e => Json.str (errName e)
+      | .ok _ => Json.null
+    pure (obj [("accepts", Json.bool (acceptsB flDouble 2 (Sum.inr top) a r p)), ("learn_err", learns)])
   | "nested_learn" =>
     -- one `learn` of a depth-2 tower: a Corral whose base learners are plain learners or Corrals over plain learners
     let dummy : Leaf := { L := { kind := .random, rng := 0 }, val := fun _ _ => 0 }
@@ -238,6 +261,17 @@ def handle (req : Json) : Except String Json := do
     match omdF flDouble 3000 (← ratList (← field req "ps")) (← ratList (← field req "etas")) (← ratList (← field req "losses")) with
     | none => pure (obj [("err", Json.str "TypeError")])
     | some (ws, halted) => pure (obj [("ps", ofList ratToJson ws), ("halted", Json.bool halted)])
+  | "corral_runF" =>
+    -- a whole history of `learn` calls on the float-faithful Corral state (`Corral.learnF flDouble`)
+    let c ← parseCorral (← field req "state")
+    let ops ← (← arr (← field req "ops")).mapM (fun (o : Json) => do
+      pure ((← natList (← field o "bacts")), (← nat (← field o "a")), (← ratOfJson (← field o "r")), (← ratOfJson (← field o "p"))))
+    let outs := (runCF flDouble 3000 c ops).map (fun (x : Except PErr (Corral × Bool)) =>
+      match x with
+      | .error e => obj [("err", Json.str (errName e))]
+      | .ok (c', h) => obj [("ps", ofList ratToJson c'.ps), ("pbars", ofList ratToJson c'.pbars), ("etas", ofList ratToJson c'.etas),
+                            ("rhos", ofList ratToJson c'.rhos), ("halted", Json.bool h)])
+    pure (obj [("outs", Json.arr outs.toArray)])
   | "welford" =>
     let vs ← ratList (← field req "xs")
     let w := Welford.run flDouble vs
